@@ -281,6 +281,9 @@ def getBH_level2(
     mask_reset = [max_path_len != pl for pl in path_lengths]
     reset_obj = [obj for obj, mask in zip(obj_list, mask_reset) if mask]
     reset_obj_m0 = [pl for pl, mask in zip(path_lengths, mask_reset) if mask]
+    # the very path objects are put back (rebuilding an orientation from its quaternions
+    # renormalizes them, which can change the last digits)
+    reset_obj_paths = [(obj._position, obj._orientation) for obj in reset_obj]
 
     # the tiled paths are reset also when the computation fails
     try:
@@ -405,9 +408,9 @@ def getBH_level2(
             B = np.concatenate(Bagg, axis=2)
     finally:
         # reset tiled objects
-        for obj, m0 in zip(reset_obj, reset_obj_m0):
-            obj._position = obj._position[:m0]
-            obj._orientation = obj._orientation[:m0]
+        for obj, (pos, ori) in zip(reset_obj, reset_obj_paths):
+            obj._position = pos
+            obj._orientation = ori
 
     # sumup over sources
     if sumup:
